@@ -237,4 +237,53 @@ def Metrics.run (waits : Bool) (s : Metrics) : List MEv → Option Metrics
     | some s' => s'.run waits rest
     | none => none
 
+/-! ## The JWT hook's refresh loop (`middleware/jwt/jwt.go`)
+
+One goroutine: `select { closing → return; after(interval) → updateKeys }`. `updateKeys` fetches the JWK set and
+replaces the key set. `Stop` closes `closing`; since the repair D18 it also cancels the fetch context (a fetch in
+flight ends without replacing anything) and waits for the goroutine. -/
+
+inductive JPhase where
+  | idle        -- in the select
+  | fetching    -- inside updateKeys, the request is in flight
+  | returned
+  deriving DecidableEq, Repr
+
+structure JwtLoop where
+  phase : JPhase := .idle
+  closing : Bool := false
+  stopDone : Bool := false
+  swaps : Nat := 0               -- how many times the key set has been replaced
+  swapsAtStop : Nat := 0         -- … of which before Stop completed
+  deriving DecidableEq, Repr
+
+inductive JEv where
+  | tick          -- the update interval has passed: the goroutine starts a fetch
+  | answer        -- the endpoint answers the fetch in flight
+  | notice        -- the goroutine, in its select, finds `closing` closed
+  | stop          -- Stop closes `closing` (and, repaired, cancels the fetch)
+  | complete      -- Stop completes
+  deriving DecidableEq, Repr
+
+/-- `repaired = true`: Stop cancels the fetch in flight and completes only after the goroutine has returned -/
+def JwtLoop.step (repaired : Bool) (s : JwtLoop) : JEv → Option JwtLoop
+  | .tick => if s.phase = .idle ∧ (repaired → s.closing = false) then some { s with phase := .fetching } else none
+      -- (unrepaired: the select may still pick the timer although `closing` is closed; repaired: harmless either way,
+      --  the fetch context is already cancelled — modelled by not starting it)
+  | .answer =>
+    if s.phase = .fetching then
+      if repaired && s.closing then some { s with phase := .idle }                        -- cancelled: nothing replaced
+      else some { s with phase := .idle, swaps := s.swaps + 1 }
+    else none
+  | .notice => if s.phase = .idle ∧ s.closing then some { s with phase := .returned } else none
+  | .stop => if s.closing then none else some { s with closing := true }
+  | .complete =>
+    if s.closing && !s.stopDone && (!repaired || s.phase = .returned) then some { s with stopDone := true, swapsAtStop := s.swaps } else none
+
+def JwtLoop.run (repaired : Bool) (s : JwtLoop) : List JEv → Option JwtLoop
+  | [] => some s
+  | e :: rest => match s.step repaired e with
+    | some s' => s'.run repaired rest
+    | none => none
+
 end Lifecycle
